@@ -4,7 +4,7 @@ from __future__ import annotations
 
 import itertools
 
-from ..term import AnalysisError
+from ..term import AnalysisError, AbstractValue, Term, var
 from ..interp import World, Interp, Instance
 from ..fieldcheck import FieldSubject, run_fq, run_fqp
 from ..ecalg import FieldSym
@@ -24,13 +24,66 @@ def rfc_sgn0(parities, zeros):
     return int(bool(sign))
 
 
+class Coef(AbstractValue):
+    """a canonical coefficient 0 <= c < p known only through its parity and whether it is zero.  The operations RFC 9380's
+    sgn0 may use (c % 2, c & 1, c == 0, c > 0, c % p) are decided; anything else is an opaque integer, on which branches fork"""
+    sort = "int"
+    __slots__ = ("name", "parity", "zero", "p")
+
+    def __init__(self, name, parity, zero, p):
+        self.name, self.parity, self.zero, self.p = name, parity, zero, p
+
+    def v_binop(self, op, other, reflected, it):
+        if not reflected and isinstance(other, int) and not isinstance(other, bool):
+            if op == "mod" and other == 2:
+                return self.parity
+            if op == "and" and other == 1:
+                return self.parity
+            if op == "mod" and other == self.p:
+                return self
+        if reflected and op == "and" and other == 1:
+            return self.parity
+        a, b = (other, var(self.name, "int")) if reflected else (var(self.name, "int"), other)
+        from ..term import t_arith
+        return t_arith(op, a, b) if isinstance(a, (int, Term)) and isinstance(b, (int, Term)) else NotImplemented
+
+    def v_compare(self, op, other, it):
+        if isinstance(other, int) and not isinstance(other, bool) and other == 0:
+            return {"==": self.zero, "!=": not self.zero, ">": not self.zero, ">=": True, "<": False, "<=": self.zero}[op]
+        from ..term import t_cmp
+        if isinstance(other, (int, Term)):
+            return t_cmp(op, var(self.name, "int"), other)
+        return NotImplemented
+
+    def v_truth(self, it):
+        return not self.zero
+
+    def v_int(self, it):
+        return self
+
+    def v_isinstance(self, T, it):
+        if T == "int":
+            return True
+        if T in ("bool", "bytes", "str", "float", "list", "tuple", "bytearray"):
+            return False
+        return NotImplemented
+
+    def __repr__(self):
+        return f"{self.name}[{'odd' if self.parity else 'even'},{'0' if self.zero else '≠0'}]"
+
+    def __deepcopy__(self, memo):
+        return self
+
+
 def sgn0_table(w, cls, degree, extra_args=None):
-    """evaluate the class's sgn0 on every (parity, is-zero) abstraction of the coefficients.
-    Abstract coefficient values: 0 (even, zero), 2 (even, non-zero), 1 (odd, non-zero)."""
+    """evaluate the class's sgn0 on every (parity, is-zero) abstraction of the canonical coefficients; a branch on anything
+    else about a coefficient forks, and every fork must agree with RFC 9380"""
+    from ..interp import enumerate_paths, Instance
     it0 = Interp(w, native_fields=False)
     m = it0.find_method(cls, "sgn0")
     if m is None:
         return None, None
+    p = it0.class_attr(cls, "field_modulus")
     bad = []
     n = 0
     reps = (0, 2, 1)
@@ -48,16 +101,21 @@ def sgn0_table(w, cls, degree, extra_args=None):
                     combos.add(tuple(c))
         combos = sorted(combos)
     for combo in combos:
-        it = Interp(w, native_fields=False)
-        if extra_args is not None:
-            inst = it.instantiate(cls, [list(combo)] + extra_args(len(combo)), {})
-        else:
-            inst = it.instantiate(cls, [combo[0]] if degree is None else [list(combo)], {})
-        got = it.call_func(m, [inst], {})
+        coefs = [Coef(f"c{i}", c % 2, c == 0, p) for i, c in enumerate(combo)]
+
+        def run1(it, coefs=coefs):
+            if extra_args is not None:
+                inst = it.instantiate(cls, [list(coefs)] + extra_args(len(coefs)), {})
+            else:
+                inst = it.instantiate(cls, [coefs[0]] if degree is None else [list(coefs)], {})
+            return it.call_func(m, [inst], {})
         want = rfc_sgn0([c % 2 for c in combo], [c == 0 for c in combo])
         n += 1
-        if bool(got) != bool(want):
-            bad.append((combo, got, want))
+        for pth in enumerate_paths(w, run1, native_fields=False, max_paths=200):
+            got = pth.value if pth.outcome == "return" else f"raises {pth.value.clsname()}"
+            if pth.outcome != "return" or isinstance(got, (Term, AbstractValue)) or bool(got) != bool(want):
+                bad.append((combo, got if not isinstance(got, (Term, AbstractValue)) else "depends on more than parity/zero-ness", want))
+                break
     return n, bad
 
 
